@@ -24,7 +24,10 @@ REFACTORS = os.path.join(VERIF, "selftest", "refactors")
 
 # seeds that are out of static reach by design (value-level; DESIGN §10) -- not demanded to fire.  Empty since the refill-amount
 # clause of STREAM and the GRAMMAR rule were added (both former misses, C03-2 and C08-3, are reported now).
-EXPECTED_MISS = {}
+EXPECTED_MISS = {
+    "C12-7": "the memo key `address.wrapping_add(offset)` is a memoisation defect: reported by MEMO-KEY under C11; C12's statement does not "
+             "mention memoisation and both the recursive grammar and its unrolling contain the memoised parsers (DESIGN §10, round 3)",
+}
 
 # which refactor patches touch which properties' rules
 REFACTOR_PROPS = {
@@ -74,7 +77,7 @@ def _run_patch(pid, patch):
 
 def _map(jobs):
     import concurrent.futures as cf
-    with cf.ThreadPoolExecutor(int(os.environ.get("VERIF_SELFTEST_WORKERS", "4"))) as ex:
+    with cf.ThreadPoolExecutor(int(os.environ.get("VERIF_SELFTEST_WORKERS", "8"))) as ex:
         return list(ex.map(lambda j: _run_patch(*j), jobs))
 
 
